@@ -1,3 +1,4 @@
 //! Independent reference code. Nothing here calls into the code it judges.
 pub mod lookup3;
 pub mod refcrypt;
+pub mod refmpq;
